@@ -846,6 +846,10 @@ func BuildIntentRequest(ri ResolvedIntent) (*sdcpb.TransactionIntent, error) {
 			} else {
 				doc[k] = ri.Explicit[k]
 			}
+			if i%3 == 0 {
+				// named twice, with the same value: by path and inside the document
+				typed[k], doc[k] = ri.Explicit[k], ri.Explicit[k]
+			}
 		}
 		a, err := BuildIntentRequest(ResolvedIntent{Name: ri.Name, Kind: ri.Kind, Prio: ri.Prio, Explicit: typed, Form: "typed"})
 		if err != nil {
